@@ -2,6 +2,7 @@ package props
 
 import (
 	"fmt"
+	"github.com/remieven/ysgo/variable"
 	"sort"
 	"strconv"
 	"strings"
@@ -35,20 +36,22 @@ var curKinds = []string{"absent", "number", "boolean", "string"}
 
 func (c03) Thresholds(tier string) map[string]int64 {
 	th := map[string]int64{
-		"histories":                   2500,
-		"statements":                  30000,
-		"failing-statements":          2000,
-		"store-unchanged-on-failure":  2000,
-		"host-writes":                 3000,
-		"host-write-read-back":        1500,
-		"host-write-new-variable":     500,
-		"statement-executed-again":    3000,
-		"recording-store-runs":        1000,
-		"default-store-runs":          1000,
-		"typed-slot-checks":           20000,
-		"compound-on-absent-variable": 200,
-		"restore-in-mid-history":      300,
-		"declare-from-function-call":  300,
+		"histories":                                     2500,
+		"statements":                                    30000,
+		"failing-statements":                            2000,
+		"store-unchanged-on-failure":                    2000,
+		"host-writes":                                   3000,
+		"host-write-read-back":                          1500,
+		"host-write-new-variable":                       500,
+		"statement-executed-again":                      3000,
+		"recording-store-runs":                          1000,
+		"default-store-runs":                            1000,
+		"typed-slot-checks":                             20000,
+		"compound-on-absent-variable":                   200,
+		"restore-in-mid-history":                        300,
+		"declare-from-function-call":                    300,
+		"re-executed-assignments":                       2500,
+		"re-executed-assignment-refused-on-type-change": 1000,
 	}
 	for _, op := range assignOps {
 		for _, cur := range curKinds {
@@ -70,7 +73,7 @@ func (c03) Exhaustive(tier string) (bool, string) {
 }
 
 func (c03) Rule() string {
-	return "case 0 = the complete assignment table (every operator x current type incl. absent x assigned type, via set and via declare), on the recording store and on the default store. Every other case = one history of 8-40 set/declare statements over 4 variables (one in five deliberately ill-typed, compound assignments to unknown variables included), interleaved with lines {$v} and with host writes made directly on the store between two steps (same-type overwrite or a new variable); blocks of the history are executed 2-3 times by the same runner through a jump loop. Now and then the host restores the runner from its own snapshot in mid-history (the run resumes at the node entry and must keep using the host's store). A script ends after the statement the model predicts to fail; the history continues in a new runner whose store the host pre-populates with the current values. Oracle after every Next: store content == model; no name under two types (recording store: no Set* on a name holding another type; default store: typed-name lists read through the verif hook); a predicted failure returns an error and leaves the store equal to the model's state before the statement; lines show the values the host just wrote. Non-trivial: the history has >=1 compound assignment and (a failing statement or a host write that is read back). Distinct by hash of the scripts + host writes."
+	return "case 0 = the complete assignment table (every operator x current type incl. absent x assigned type, via set and via declare), on the recording store and on the default store. Every other case = one history of 8-40 set/declare statements over 4 variables (one in five deliberately ill-typed, compound assignments to unknown variables included), interleaved with lines {$v} and with host writes made directly on the store between two steps (same-type overwrite or a new variable); blocks of the history are executed 2-3 times by the same runner through a jump loop. Now and then the host restores the runner from its own snapshot in mid-history (the run resumes at the node entry and must keep using the host's store). A script ends after the statement the model predicts to fail; the history continues in a new runner whose store the host pre-populates with the current values. Every case also runs ONE assignment (set or declare) 2-4 times through a jump loop with a right-hand side - a host function of the pass number - that yields another type at some pass: the execution at which the type differs from the variable's type then must fail and leave the store as it was. Every case finally drives the default store directly (10-40 typed writes, Clear and reads): GetValues, GetValue and Contains must agree with a plain map after every operation. Oracle after every Next: store content == model; no name under two types (recording store: no Set* on a name holding another type; default store: typed-name lists read through the verif hook); a predicted failure returns an error and leaves the store equal to the model's state before the statement; lines show the values the host just wrote. Non-trivial: the history has >=1 compound assignment and (a failing statement or a host write that is read back). Distinct by hash of the scripts + host writes."
 }
 
 func (c03) Assumptions() []string {
@@ -233,6 +236,140 @@ func (p c03) Run(c *core.Ctx) {
 		items = append(items, it)
 	}
 	p.runHistory(c, items, compound)
+	if !c.Failed() {
+		p.retypeByReexecution(c)
+	}
+	if !c.Failed() {
+		p.defaultStoreVersusMap(c)
+	}
+}
+
+// defaultStoreVersusMap drives the default store directly, as a host does between two steps, with a random
+// sequence of typed writes (type-stable per name between two Clear calls), Clear and every kind of read,
+// against a plain map: GetValue, Contains and GetValues must tell the same story after every operation
+// (the runner's checkpoints and the host's saves are made from GetValues).
+func (p c03) defaultStoreVersusMap(c *core.Ctx) {
+	r := c.R
+	st := variable.NewInMemoryStorer()
+	want := map[string]model.Val{}
+	names := []string{"a", "b", "c", "вар", "e"}
+	var ops []string
+	fail := func(what string) {
+		c.Violate("the default store does not hold what was last written: "+what, map[string]any{"operations": ops})
+	}
+	readAll := func() bool {
+		got := st.GetValues()
+		if d := mon.StateDiff(want, got); d != "" {
+			fail("GetValues: " + d)
+			return false
+		}
+		for _, n := range names {
+			v, ok := st.GetValue(n)
+			w, has := want[n]
+			if ok != has || st.Contains(n) != has {
+				fail(fmt.Sprintf("GetValue/Contains(%s): stored=%v/%v, want %v", n, ok, st.Contains(n), has))
+				return false
+			}
+			if ok {
+				if g, _ := mon.ToVal(v); !model.Same(g, w, true) {
+					fail(fmt.Sprintf("GetValue(%s) = %s, want %s", n, g, w))
+					return false
+				}
+			}
+		}
+		return true
+	}
+	for i := r.Range(10, 40); i > 0; i-- {
+		switch r.PickW(50, 12, 38) {
+		case 0:
+			n := names[r.Intn(len(names))]
+			t := hast.Ty(r.Intn(3))
+			if old, ok := want[n]; ok {
+				t = old.T
+			}
+			v := valOf(r, t)
+			storeWrite(st, n, v)
+			want[n] = v
+			ops = append(ops, fmt.Sprintf("Set(%s, %s)", n, v))
+		case 1:
+			st.Clear()
+			want = map[string]model.Val{}
+			ops = append(ops, "Clear()")
+			c.Feature("default-store:clear")
+		default:
+			ops = append(ops, "GetValues()+GetValue()+Contains()")
+			if !readAll() {
+				return
+			}
+		}
+		c.Feature("default-store:operations")
+	}
+	ops = append(ops, "GetValues()+GetValue()+Contains()")
+	readAll()
+}
+
+// retypeByReexecution: ONE assignment statement is executed 2-4 times by the same runner (jump loop) and
+// its right-hand side - a host function of the pass number - yields a value of another type at some pass.
+// Whether an execution succeeds depends on the type the variable has THEN, not on what the statement did
+// the first time.
+func (p c03) retypeByReexecution(c *core.Ctx) {
+	r := c.R
+	passes := r.Range(2, 4)
+	vals := make([]model.Val, passes)
+	for i := range vals {
+		vals[i] = valOf(r, hast.Ty(r.Intn(3)))
+	}
+	if r.Bool() {
+		// same type until the last pass
+		for i := 1; i < passes-1; i++ {
+			vals[i] = valOf(r, vals[0].T)
+		}
+		for vals[passes-1].T == vals[0].T {
+			vals[passes-1] = valOf(r, hast.Ty(r.Intn(3)))
+		}
+	}
+	alt := func(a []model.Val) (model.Val, bool, error) {
+		if len(a) != 1 || a[0].T != hast.TNum || int(a[0].N) < 0 || int(a[0].N) >= len(vals) {
+			return model.None, false, mon.ErrHost
+		}
+		return vals[int(a[0].N)], true, nil
+	}
+	st := &hast.Stmt{K: hast.SSet, Var: "w", Op: "=", X: hast.Call("alt", hast.Var("pass")), ID: 1}
+	if r.Chance(1, 4) {
+		st.K = hast.SDeclare
+	}
+	body := []*hast.Stmt{st, {K: hast.SLine, Parts: []hast.Part{hast.Lit("pass "), hast.Inl(hast.Var("pass"))}, ID: 2},
+		{K: hast.SIf, Clauses: []*hast.Clause{{
+			Cond: hast.Bin("<", hast.Var("pass"), hast.Num(strconv.Itoa(passes-1))),
+			Body: []*hast.Stmt{{K: hast.SSet, Var: "pass", Op: "+=", X: hast.Num("1")}, {K: hast.SJump, Target: "Start"}},
+		}}},
+		{K: hast.SLine, Parts: []hast.Part{hast.Lit("end")}, ID: 3}}
+	prog := &hast.Program{Readers: 1, Nodes: []*hast.Node{{Title: "Start", Body: body}}}
+	scripts := hast.Render(prog, hast.L0())
+	pre := map[string]model.Val{"pass": model.N(0)}
+	pair, err, pan := NewPair(prog, scripts, PairOpts{Pre: pre, UseDefaultStore: r.Bool(), ExtraFuncs: map[string]model.Fn{"alt": alt}}, nil)
+	if err != nil || pan != "" {
+		c.Violate("a generated, syntactically valid script failed to load", map[string]any{"readers": scripts, "error": fmt.Sprint(err), "panic": pan})
+		return
+	}
+	for step := 0; step < 20; step++ {
+		want, got, diff := pair.Step(0)
+		c.Feature("typed-slot-checks")
+		if diff != "" {
+			d := pair.Detail(nil, want, got, diff)
+			d["values_per_pass"] = fmt.Sprint(vals)
+			c.Violate("an assignment statement executed again does not obey the variable's type as it is then: "+diff, d)
+			return
+		}
+		if want.Kind == model.OErr {
+			c.Feature("re-executed-assignment-refused-on-type-change")
+			break
+		}
+		if want.Kind == model.OEnd {
+			break
+		}
+	}
+	c.Feature("re-executed-assignments")
 }
 
 // runHistory executes a history over as many runners as it has failing statements + 1.
